@@ -1478,6 +1478,10 @@ func (in *interp) call(e *ast.CallExpr) *Val {
 		str := ""
 		if base != nil {
 			path = append(append([]PathElem(nil), basePath(base)...), PathElem{Obj: f, Str: f.Name() + "()"})
+			for _, a := range e.Args {
+				ap, _ := in.pathOf(a)
+				path = append(path, ap...)
+			}
 			str = base.String() + "." + f.Name() + "(" + in.strList(e.Args) + ")"
 		} else {
 			path = []PathElem{{Obj: f, Str: f.Name() + "()"}}
